@@ -31,6 +31,14 @@ def main(argv=None):
     a = ap.parse_args(argv)
     ids = checks_available() if a.check == "all" else [a.check.upper()]
     rc = 0
+    if a.check == "all":
+        # one process per check (each check chooses its own build of the C extension)
+        import subprocess
+        for pid in ids:
+            r = subprocess.run([sys.executable, "-m", "vt.cli", pid, "--tier", a.tier, "--seed", str(a.seed)]).returncode
+            if r == 1 or (r and rc == 0):
+                rc = r if r in (1, 2) else 2
+        return rc
     for pid in ids:
         if pid not in checks_available():
             print("unknown check %s" % pid)
